@@ -2,6 +2,7 @@ package c09
 
 import (
 	"strings"
+	"sync"
 	"testing"
 	"time"
 
@@ -68,6 +69,25 @@ func fuzzWaits() {
 	helperWait = 3 * time.Second
 }
 
+var (
+	fuzzBegunMu sync.Mutex
+	fuzzBegun   = map[string]bool{}
+)
+
+// beginFuzz makes violations found by a byte-level target (also when only its
+// seed corpus runs, as in the quick tier) carry the target's name.
+func beginFuzz(target string, t *testing.T) {
+	fuzzBegunMu.Lock()
+	defer fuzzBegunMu.Unlock()
+	if !fuzzBegun[target] {
+		for k := range fuzzBegun {
+			delete(fuzzBegun, k)
+		}
+		fuzzBegun[target] = true
+		ev.Begin(t)
+	}
+}
+
 func FuzzC09Serve(f *testing.F) {
 	for _, s := range serveSeeds {
 		f.Add([]byte(s))
@@ -93,6 +113,7 @@ func FuzzC09Serve(f *testing.F) {
 			t.Skip()
 		}
 		fuzzWaits()
+		beginFuzz("FuzzC09Serve", t)
 		reportLate(t)
 		c := fullApp(string(data))
 		res, inconclusive := runACase(c, func(format string, args ...any) { ev.Failf(t, format, args...) })
@@ -125,6 +146,7 @@ func FuzzC09Reply(f *testing.F) {
 			t.Skip()
 		}
 		fuzzWaits()
+		beginFuzz("FuzzC09Reply", t)
 		reportLate(t)
 		h := &helpers[int(hidx)%len(helpers)]
 		kind := h.kind
